@@ -217,7 +217,7 @@ Section FromMs.
              match anc with
              | [] => Ok s
              | _ =>
-                 if neqb (nth j row n0) n0 then
+                 if neqb (nth j row n0) n0 && memn j (b_joined s) then
                    ds <- updM j (fun d => Ok (mkBD (bd_name d) (bd_start d)
                                                    (Some (map (fun op => deme_name (S (fst op))) anc))
                                                    (Some (map snd anc)) (bd_epochs d))) (b_demes s) ;;
